@@ -1361,7 +1361,7 @@ def gen_mstele(rng):
 
 def gen_msteleb(rng):
     """`multiscale_backward_telescopes` at the Gaussian rationals: complex mask and operators, real windows
-    (sometimes one complex window sample: the hypothesis `windowsReal` then fails)."""
+    (sometimes one complex window sample: the identity needs no reality of the windows)."""
     d, n, L = int(rng.integers(3, 9)), int(rng.integers(1, 4)), int(rng.integers(1, 4))
     lo, hi = 0, d
     supports = []
@@ -1447,16 +1447,14 @@ def part_f(ctx):
         toks = resp.split()
         if toks[0] != 'ok':
             raise MachineryError('model refused msteleb: %s' % resp[:80])
-        m = dict(t.split('=') for t in toks[1:4])
+        m = dict(t.split('=') for t in toks[1:3])
         ctx.traces_validated += 1
-        ctx.count('F:teleb:nested=%s,real=%s' % (m['nested'], m['real']))
-        lhs = np.array([float(v) for v in parse_rat_list(toks[4])]) + 1j * np.array([float(v) for v in parse_rat_list(toks[5])])
-        if m['nested'] != '1' or (m['real'] == '1') == cplx_window:
-            ctx.disagree('C09 backward telescoping', {'what': 'hypotheses: model nested=%s real=%s, generator complex window=%s' % (m['nested'], m['real'], cplx_window), 'line': line[:200]})
-        elif m['real'] == '1' and (m['equal'] != '1' or np.abs(lhs - want).max() > TOL * max(1.0, np.abs(want).max())):
+        ctx.count('F:teleb:nested=%s,complex-window=%s' % (m['nested'], int(cplx_window)))
+        lhs = np.array([float(v) for v in parse_rat_list(toks[3])]) + 1j * np.array([float(v) for v in parse_rat_list(toks[4])])
+        if m['nested'] != '1':
+            ctx.disagree('C09 backward telescoping', {'what': 'generator made nested supports but the model says nestedOK = false', 'line': line[:200]})
+        elif m['equal'] != '1' or np.abs(lhs - want).max() > TOL * max(1.0, np.abs(want).max()):
             ctx.disagree('C09 backward telescoping', {'line': line[:200], 'model': resp[:200]})
-        elif m['real'] != '1':
-            ctx.count('F:teleb:complex-window-' + ('unequal' if m['equal'] == '0' else 'equal'))
     for (line, want, broken), resp in zip(tele, out[len(lines):]):
         toks = resp.split()
         if toks[0] != 'ok':
